@@ -137,7 +137,7 @@ static Bytes pattern(uint32_t len, uint8_t pat)
 // ---------------------------------------------------------------------------------------------
 // Typed prototypes, built with the library's own builders (the round trip must return what the
 // getters reported before encoding).
-constexpr int NPROTO = 21;
+constexpr int NPROTO = 25;
 static Payload protoPayload(int idx)
 {
     Bytes d = pattern(2000, (uint8_t) (idx + 3));
@@ -159,6 +159,11 @@ static Payload protoPayload(int idx)
         case 13: { CaptureModulePayload p; p.setGmIdentity(0xA1A2A3A4A5A6A7A8ull); std::string l(300, 'x'); l[299] = 'y'; p.setData(l, "serial-0001", l.substr(0, 151), "v1.2.3", {1, 2, 3}); return p; }
         case 14: { InterfacePayload p; p.setInterfaceId(0x11223344); p.setMsgTotalRx(77); p.setData(nullptr, 0, nullptr, 0); return p; }
         case 15: { InterfacePayload p; p.setInterfaceId(5); p.setInterfaceStatus(InterfacePayload::InterfaceStatus::linkStatusUp); uint8_t s[3] = {1, 2, 3}; uint8_t v[5] = {9, 8, 7, 6, 5}; p.setData(s, 3, v, 5); return p; }
+        // payload objects as their default constructors leave them (absent strings, no data): legal, well-formed payloads
+        case 21: return CaptureModulePayload();
+        case 22: return InterfacePayload();
+        case 23: return CanFdPayload();
+        case 24: return AnalogPayload();
         case 16: return Payload(PayloadType(CmpHeader::MessageType::data, 0xFE), d.data(), 10);
         case 17: return Payload(PayloadType(CmpHeader::MessageType::status, 0xFE), d.data(), 7);
         case 18: return Payload(PayloadType(CmpHeader::MessageType::control, 0x01), d.data(), 5);
